@@ -24,11 +24,13 @@ def gen_cases(tier, seed):
     outs_all = [[0], [1], [2], [0, 1], [1, 2], [0, 1, 2], []]
     modes = ["simple", "depth_default", "depth_extreme"]
     # --- powers of two
-    for st in ["i8", "u8", "i16", "u16", "i32", "u32", "i64", "u64"]:
+    for st in ["i8", "u8", "i16", "u16", "i32", "u32", "i64", "u64", "i128", "u128"]:
         w = st_bits(st)
         ks = sorted(set([1, 2, w // 2, w - 3, w - 2])) if tier == "quick" else list(range(1, w - 1))
         if tier == "quick" and w >= 32:
             ks = sorted(set([1, w // 2, w - 2, 1 + (seed * 5 + w) % (w - 2)]))
+        if w == 128:
+            ks = sorted(set([1, 63, 64, 65, 100, 126] + ([1 + (seed * 11) % 126] if tier == "quick" else list(range(60, 70)))))
         for kk in ks:
             for shape in ([(), (2,)] if w <= 16 else [()]):
                 # rotate owners / outputs so that every owner value and output set appears
@@ -300,9 +302,9 @@ def main():
     for x in sorted(slow, reverse=True)[:10]:
         print("slow:", x)
     chk.functions = ["mpc::mpc_truncate::TruncateMPC2K::instantiate", "mpc::mpc_truncate::TruncateMPC::instantiate", "mpc::mpc_compiler::compile_to_mpc_graph (Truncate arm, key plumbing)", "mpc::mpc_compiler::compile_context"]
-    chk.bounds = dict(pow2="INT8..INT64 and UINT8..UINT64; k in {1,2,w/2,w-3,w-2} (quick; 4 values for w>=32) / all 1..w-2 (thorough); scalar and [2]",
+    chk.bounds = dict(pow2="INT8..INT128 and UINT8..UINT128 (128-bit: k in {1,63,64,65,100,126}); k in {1,2,w/2,w-3,w-2} (quick; 4 values for w>=32) / all 1..w-2 (thorough); scalar and [2]",
                       general="signed 8/16/32/64 bit; d in {3,5,7,10,100,2^(w/2)+-1}", owners="0,1,2,shared,public rotated", outputs="7 output sets rotated incl. shared", modes="3 inline modes rotated")
-    chk.outside = ["128-bit types", "the probability of the wrap-around event (only its exclusion as a precondition is modelled)"]
+    chk.outside = ["general divisors on 128-bit types", "the probability of the wrap-around event (only its exclusion as a precondition is modelled)"]
     chk.assumptions = ["2^k: inputs in the documented range [-2^(w-2), 2^(w-2)) signed / [0, 2^(w-1)) unsigned; oracle = floor (arithmetic shift), not the plaintext evaluator",
                        "general divisor: precondition 'no wrap-around': sext(s0)+sext(s1+s2) = sext(x) for the shares the protocol truncates; oracle = plaintext quotient (round toward zero) +-1",
                        "PRF values (r, r-shares, y0, y2, zero shares) are arbitrary subject to (key, iv) congruence"]
